@@ -224,7 +224,10 @@ example : ((renderTree {} Deco.rich 5 exPre).toOption.map fun ls => ((ls.flatMap
     configuration (footnotes off): the rendered lines hold `y` at most as often as the specification `nodeTT`, in which
     each character of a text node carries the annotations of its annotating ancestors, outermost first (the table's, the
     row's and the cell's colours included).  Nested tables, stacked rows, border collapsing and padding add box-drawing
-    characters and blanks only; cells of zero width are dropped (which is why this is `≤`). -/
+    characters and blanks only; cells of zero width are dropped (which is why this is `≤`).  For a regular table
+    `C03.regular_table_conserves_text` gives equality of the character counts; since the count of a character is the sum
+    over its tag vectors and every summand is bounded by this theorem, each summand is then equal: in a regular table every
+    tagged character of the specification is in the output exactly as often. -/
 theorem no_tagged_character_invented (ν : Tag → Tag) (P : Ch → Bool) (y : Cell) (hyb : isBox y.ch = false) (hyP : P y.ch = true)
     (cfg : Cfg) (d : Deco) (hν : PreView ν d) (w : Nat) (tree : RNode) (ls : List RLine) (hfn : cfg.footnotes = false)
     (hd : DecoAvoids P d) (h : renderTree cfg d w tree = .ok ls) :
